@@ -524,4 +524,128 @@ theorem converges_roll {x : Pair} (hc : Coupled2 x) (hoth : OtherAct x.child.ca 
       (Nat.le_trans (newClasses_le _ _) (by rw [hlen]; exact hf.1)) hfresh1
     exact conv_from_stageC hC hoth2 na' f4
 
+/-! ## The hypotheses as decidable predicates on the pair -/
+
+/-- Request flags are where the code can put them and the keys of a class are pairwise
+different (`KeyState.wf`), in every class under the parent. -/
+def Pair.keysWellFormed (x : Pair) : Bool :=
+  x.child.ca.classes.all fun q => decide (q.2.parent ≠ x.ph) || q.2.keys.wf
+
+/-- No key identifier occurs in two classes under the parent (keys are created by the signer). -/
+def Pair.keysDistinct (x : Pair) : Bool :=
+  x.child.ca.classes.all fun q1 => x.child.ca.classes.all fun q2 =>
+    decide (q1.1 = q2.1) || decide (q1.2.parent ≠ x.ph) || decide (q2.2.parent ≠ x.ph) ||
+      q1.2.keys.keyIds.all fun k => !q2.2.keys.keyIds.contains k
+
+/-- The key a roll in progress is going to revoke is still in use at the parent, in the class the
+child's class name stands for: the parent did not revoke it on its own side (by shrinking its
+own certificate to nothing of the child's, or removing the child).  Excludes
+`sync_stuck_after_parent_side_revocation`. -/
+def Pair.noParentSideRevocation (x : Pair) : Bool :=
+  x.child.ca.classes.all fun q => decide (q.2.parent ≠ x.ph) || q.2.keys.leaving.all fun k =>
+    match get x.parent.ca.children x.ch with
+    | some c => decide (get c.usedKeys k = some (.inUse (c.nameInParent q.2.parentRcn)))
+    | none => false
+
+/-- The child has no suspended child certificates. -/
+def Pair.noSuspendedCerts (x : Pair) : Bool := x.child.ca.classes.all fun q => q.2.certs.suspended.isEmpty
+
+/-- No class under ANOTHER parent has a new key waiting for activation (`KeyRollActivate` is one
+command for all classes and is refused as a whole while any new key has an open request). -/
+def Pair.othersNotActivating (x : Pair) : Bool :=
+  x.child.ca.classes.all fun q => decide (q.2.parent = x.ph) || decide (q.2.keys.variant ≠ .rollNew)
+
+/-- `certsOnFile` for every key that stays (the current key, the new key of a roll). -/
+def Pair.stayingCertsOnFile (x : Pair) : Bool :=
+  x.child.ca.classes.all fun q => decide (q.2.parent ≠ x.ph) || q.2.keys.staying.all fun k =>
+    match x.parent.ca.answer x.ch q.2.parentRcn with
+    | some R => !seteq k.cert.res R ||
+      (match x.parent.ca.issuedFor x.ch q.2.parentRcn k.id with
+        | some cc => seteq cc.res R
+        | none => false)
+    | none => true
+
+/-- The coupling of a parent/child pair with a key roll of the child possibly in progress,
+decidable. -/
+def Pair.coupledRoll (x : Pair) : Bool :=
+  x.childHasRepo && x.mappingInjective && x.noRequestLimits && x.classNamesDistinct && x.stayingCertsOnFile &&
+  x.keysWellFormed && x.keysDistinct && x.noParentSideRevocation && x.noSuspendedCerts && x.othersNotActivating
+
+/-- The new keys are new (decidable form of `FreshOk`). -/
+def Pair.freshOk (x : Pair) (fresh : List KeyId) : Bool :=
+  decide fresh.Nodup && fresh.all fun k => x.child.ca.classes.all fun q =>
+    decide (q.2.parent ≠ x.ph) || !q.2.keys.keyIds.contains k
+
+theorem freshOk_of_bool {x : Pair} {fresh : List KeyId} (h : x.freshOk fresh = true) : FreshOk x fresh := by
+  simp only [Pair.freshOk, Bool.and_eq_true, decide_eq_true_eq, List.all_eq_true, Bool.or_eq_true,
+    Bool.not_eq_true'] at h
+  refine ⟨h.1, ?_⟩
+  intro k hk r rc hg hp hmem
+  rcases h.2 k hk (r, rc) (mem_of_get hg) with h1 | h1
+  · exact h1 hp
+  · have := List.contains_iff_mem.mpr hmem
+    rw [h1] at this; cases this
+
+theorem coupled2_of_bool {x : Pair} (hp : Reachable x.parent) (hc : Reachable x.child)
+    (h : x.coupledRoll = true) : Coupled2 x ∧ OtherAct x.child.ca x.ph := by
+  simp only [Pair.coupledRoll, Bool.and_eq_true] at h
+  obtain ⟨⟨⟨⟨⟨⟨⟨⟨⟨h1, h2⟩, h3⟩, h4⟩, h5⟩, h6⟩, h7⟩, h8⟩, h9⟩, h10⟩ := h
+  refine ⟨⟨⟨⟨hp, hc, h1, ?_⟩, ?_⟩, h2, ?_, ⟨?_, ?_, ?_⟩, ?_⟩, ?_⟩
+  · intro r rc hg e he
+    simp only [Pair.noRequestLimits, List.all_eq_true] at h3
+    have := h3 (r, rc) (mem_of_get hg) e he
+    cases hl : e.2.limit with
+    | none => rfl
+    | some l => rw [hl] at this; cases this
+  · intro r rc hg
+    simp only [Pair.noSuspendedCerts, List.all_eq_true, List.isEmpty_iff] at h9
+    exact h9 (r, rc) (mem_of_get hg)
+  · intro r1 r2 rc1 rc2 hg1 hg2 hp1 hp2 hname
+    simp only [Pair.classNamesDistinct, decide_eq_true_eq] at h4
+    have h1m : (r1, rc1) ∈ x.child.ca.classes.filter fun q => q.2.parent = x.ph :=
+      List.mem_filter.mpr ⟨mem_of_get hg1, by simpa using hp1⟩
+    have h2m : (r2, rc2) ∈ x.child.ca.classes.filter fun q => q.2.parent = x.ph :=
+      List.mem_filter.mpr ⟨mem_of_get hg2, by simpa using hp2⟩
+    exact congrArg Prod.fst (eq_of_nodup_map (fun q : Rcn × Rc => q.2.parentRcn) h4 h1m h2m hname)
+  · intro r rc hg hpar
+    simp only [Pair.keysWellFormed, List.all_eq_true, Bool.or_eq_true, decide_eq_true_eq] at h6
+    rcases h6 (r, rc) (mem_of_get hg) with h | h
+    · exact absurd hpar h
+    · exact h
+  · intro r1 r2 rc1 rc2 k hg1 hg2 hp1 hp2 hk1 hk2
+    simp only [Pair.keysDistinct, List.all_eq_true, Bool.or_eq_true, decide_eq_true_eq, Bool.not_eq_true'] at h7
+    rcases h7 (r1, rc1) (mem_of_get hg1) (r2, rc2) (mem_of_get hg2) with ((h | h) | h) | h
+    · exact h
+    · exact absurd hp1 h
+    · exact absurd hp2 h
+    · have := List.contains_iff_mem.mpr hk2
+      rw [h k hk1] at this; cases this
+  · intro r rc hg hpar k hk
+    simp only [Pair.noParentSideRevocation, List.all_eq_true, Bool.or_eq_true, decide_eq_true_eq] at h8
+    rcases h8 (r, rc) (mem_of_get hg) with h | h
+    · exact absurd hpar h
+    · have := h k hk
+      cases hcx : get x.parent.ca.children x.ch with
+      | none => rw [hcx] at this; cases this
+      | some c => rw [hcx] at this; exact ⟨c, hcx, by simpa using this⟩
+  · intro r rc k R hg hpar hk ha hse
+    simp only [Pair.stayingCertsOnFile, List.all_eq_true, Bool.or_eq_true, decide_eq_true_eq] at h5
+    rcases h5 (r, rc) (mem_of_get hg) with h | h
+    · exact absurd hpar h
+    · have := h k hk
+      simp only [ha, hse, Bool.not_true, Bool.false_or] at this
+      cases hi : x.parent.ca.issuedFor x.ch rc.parentRcn k.id with
+      | none => rw [hi] at this; cases this
+      | some cc => rw [hi] at this; exact ⟨cc, rfl, this⟩
+  · intro r rc hg hpar
+    simp only [Pair.othersNotActivating, List.all_eq_true, Bool.or_eq_true, decide_eq_true_eq] at h10
+    rcases h10 (r, rc) (mem_of_get hg) with h | h
+    · exact absurd h hpar
+    · cases hk : rc.keys with
+      | rollNew n c => rw [hk] at h; exact absurd rfl h
+      | pending _ => simp only [Rc.activatable, hk]
+      | active _ => simp only [Rc.activatable, hk]
+      | rollPending _ _ => simp only [Rc.activatable, hk]
+      | rollOld _ _ => simp only [Rc.activatable, hk]
+
 end KM.CaK
